@@ -183,10 +183,12 @@ Definition answer_ok (qn : name) (max : N) (ans : list record) (o : list rr) : b
           [1; 28].
 
 (* an additional record is sound: a declared, visible, non-wildcard address of positive weight
-   at its owner, and the owner is a target of an NS / MX record of the message *)
+   at its owner, and the owner is a target of an NS / MX record of the message or the owner of
+   an HTTPS record of it (Spec/AnswerExtra, Model/Serve.target_of: NS 2, MX 15, HTTPS 65) *)
 Definition targets (l : list rr) : list name :=
   flat_map (fun r => if rr_type r =? 2 then [labels_of (rr_rdata r)]
-                     else if rr_type r =? 15 then [labels_of (skipn 2 (rr_rdata r))] else []) l.
+                     else if rr_type r =? 15 then [labels_of (skipn 2 (rr_rdata r))]
+                     else if rr_type r =? 65 then [labels_of (rr_owner r)] else []) l.
 Definition extra_sound (L : bytes) (recs : list record) (p : reply) : bool :=
   forallb (fun x =>
     is_addr (rr_type x) &&
